@@ -160,7 +160,7 @@ def run(ctx: Ctx):
         s = Stream(ctx, name)
         rng = ctx.rng(name)
         cases = []
-        for _ in range(8000 if quick else 150000):
+        for _ in range(ctx.size(8000, 150000)):
             nodes = gen.random_tree(rng, max_nodes=14, max_depth=5, comps=comps)
             imps = gen.random_imports(rng, nodes, 10)
             cases.append((nodes, imps, rng.randint(0, max(n.count(".") for n in nodes))))
@@ -169,7 +169,7 @@ def run(ctx: Ctx):
     s = Stream(ctx, "scans: random project trees x module_path x level_limit")
     rng = ctx.rng("scans")
     cases = []
-    for _ in range(400 if quick else 8000):
+    for _ in range(ctx.size(400, 8000)):
         tree = sc.gen_tree(rng, max_depth=5)
         sc.fill_sources(rng, tree, externals=False)
         dirs = sorted(p for p, v in tree.items() if v is None)
@@ -179,6 +179,6 @@ def run(ctx: Ctx):
     s.finish()
     for name, comps in (("verdicts above the limit: plain", gen.PLAIN), ("verdicts above the limit: adversarial", gen.IDENT_ADVERSARIAL)):
         s = Stream(ctx, name)
-        judge_verdicts(ctx, s, verdict_cases(ctx, ctx.rng(name), 8000 if quick else 150000, comps))
+        judge_verdicts(ctx, s, verdict_cases(ctx, ctx.rng(name), ctx.size(8000, 150000), comps))
         s.finish()
     return RULE
